@@ -321,7 +321,7 @@ class t2grid(object):
         """Deletes a connection from the grid"""
         if connectionname in self.connection:
             con = self.connection[connectionname]
-            for block in con.block: block.connection_name.remove(connectionname)
+            for block in set(con.block): block.connection_name.remove(connectionname)
             del self.connection[connectionname]
             self.connectionlist.remove(con)
 
